@@ -79,7 +79,16 @@ def _patch_corenums(before, after):
     return (before[0], before[1], fields)
 
 
-conv_case = st.one_of(*[c01.case_strategy(t) for t in c01.TARGETS])
+def _force_aminusb(case):
+    case = dict(case, mo=dict(case["mo"], kind="restricted", aminusb=True))
+    if case["mo"]["occ"] not in ("closed", "open_integer", "fractional"):
+        case["mo"]["occ"] = "open_integer"
+    return case
+
+
+_any_case = st.one_of(*[c01.case_strategy(t) for t in c01.TARGETS])
+# half of the conversion cases carry an explicit occs_aminusb (generic, all zero, or summing to zero)
+conv_case = st.one_of(_any_case, _any_case.map(_force_aminusb))
 
 
 def case_strategy(fmt):
